@@ -275,6 +275,49 @@ impl<'a> ExpressionLoweringManager<'a> {
     }
   }
 
+  /// The functions of the builtin classes are provided by the runtime of each backend. They can
+  /// only be called directly, so a closure has to point to a compiled function that forwards to it.
+  fn create_synthetic_builtin_function_wrapper(
+    &mut self,
+    builtin_function: hir::FunctionNameExpression,
+  ) -> hir::FunctionNameExpression {
+    let name = self.allocate_synthetic_fn_name();
+    let type_ = builtin_function.type_.clone();
+    // Every type parameter of a builtin function appears in its signature.
+    let type_parameters =
+      collect_used_generic_types(&type_, &self.type_lowering_manager.generic_types)
+        .into_iter()
+        .sorted()
+        .collect_vec();
+    let parameters = (0..type_.argument_types.len())
+      .map(|i| if i == 0 { PStr::UNDERSCORE_THIS } else { self.allocate_temp_variable() })
+      .collect_vec();
+    let return_collector = self.allocate_temp_variable();
+    let return_type = type_.return_type.as_ref().dupe();
+    self.synthetic_functions.push(hir::Function {
+      name,
+      parameters: parameters.clone(),
+      type_parameters: type_parameters.clone(),
+      type_: type_.clone(),
+      body: vec![hir::Statement::Call {
+        callee: hir::Callee::FunctionName(builtin_function),
+        arguments: parameters
+          .into_iter()
+          .zip(&type_.argument_types)
+          .map(|(n, t)| hir::Expression::var_name(n, t.dupe()))
+          .collect_vec(),
+        return_type: return_type.dupe(),
+        return_collector: Some(return_collector),
+      }],
+      return_value: hir::Expression::var_name(return_collector, return_type),
+    });
+    hir::FunctionNameExpression {
+      name,
+      type_,
+      type_arguments: type_parameters.into_iter().map(hir::Type::new_generic_type).collect_vec(),
+    }
+  }
+
   fn lower_method_access(
     &mut self,
     expression: &source::expr::MethodAccess<Arc<type_::Type>>,
@@ -298,6 +341,11 @@ impl<'a> ExpressionLoweringManager<'a> {
     } else {
       inferred_targs
     };
+    let mut function_name =
+      hir::FunctionNameExpression { name: function_name, type_: method_type, type_arguments };
+    if source_obj_type.as_nominal().is_some_and(|t| t.module_reference == ModuleReference::ROOT) {
+      function_name = self.create_synthetic_builtin_function_wrapper(function_name);
+    }
     let closure_variable_name = self.allocate_temp_variable();
     bind_value(
       &mut self.variable_cx,
@@ -307,11 +355,7 @@ impl<'a> ExpressionLoweringManager<'a> {
     statements.push(hir::Statement::ClosureInit {
       closure_variable_name,
       closure_type: closure_type.dupe(),
-      function_name: hir::FunctionNameExpression {
-        name: function_name,
-        type_: method_type,
-        type_arguments,
-      },
+      function_name,
       context: result_expr,
     });
     LoweringResult {
